@@ -159,7 +159,10 @@ def aabb_layout(rep, prog):
                     rep.violation("C06.aabb-layout", prog, chk, n, "aabb check compares %s with slot %d" % (ax, k),
                                   "aabb_intersection_check tests the node's %s coordinate '%s' against slot %s of the box; the box layout is (min_x,min_y,min_z,max_x,max_y,max_z), so slot %d is required: nodes inside the box are rejected (lost pairs) or nodes outside accepted" % (ax, n["op"], k, want_k))
     if n_cmp != 6:
-        rep.violation("C06.aabb-layout", prog, chk, None, "%d comparisons in the aabb check" % n_cmp, "aabb_intersection_check must compare each coordinate against its min and max slot (6 comparisons), found %d" % n_cmp)
+        # another form of the test (slabs as Booleans, the box read through a pointer, ...): decide it as a Boolean function of
+        # the region (below / inside / above) of each coordinate relative to its slot pair, interpreted for all 27 combinations
+        _box_truth_table(rep, prog, chk, pos_p)
+        return
     rets = [n for n in walk(chk["body"]) if n.get("k") == "ReturnStmt"]
     fi = prog.index(chk)
     for r in rets:
@@ -168,6 +171,86 @@ def aabb_layout(rep, prog):
         if v.get("k") == "CXXBoolLiteralExpr" and bool(v.get("v")) == (not inside_if):
             continue
         rep.violation("C06.aabb-layout", prog, chk, r, "aabb check returns the wrong truth value", "aabb_intersection_check must return false exactly when a coordinate is outside its [min,max] slot pair and true otherwise")
+
+
+def _box_truth_table(rep, prog, chk, pos_p):
+    import itertools
+    from .. import finite
+    vec_p = [p_ for p_ in chk["params"] if "vec3" in p_["t"]]
+    if not vec_p:
+        raise AnalysisBroken("aabb_intersection_check: position parameter not found")
+    vdid = vec_p[0]["did"]
+    ptr_base = {}     # did of a pointer local = face_aabb_lst_.data() + pos  (offset 0)
+    for v in walk(chk["body"]):
+        if v.get("k") == "Var" and isinstance(v.get("init"), dict) and "*" in v.get("t", ""):
+            t = render(v["init"]).replace(" ", "")
+            if "face_aabb_lst_.data()" in t and pos_p["name"] in t and not re.search(r"\+\d", t.replace(pos_p["name"], "")):
+                ptr_base[v["did"]] = 0
+    bad_slot = []
+
+    def slot_of(e):
+        e = strip(e)
+        idx = None
+        if e.get("k") == "CXXOperatorCallExpr" and e.get("op") == "[]" and render(e["c"][1]).endswith("face_aabb_lst_"):
+            idx = strip(e["c"][2])
+            if idx.get("k") == "BinaryOperator" and idx.get("op") == "+":
+                a, b = strip(idx["c"][0]), strip(idx["c"][1])
+                if a.get("k") == "DeclRefExpr" and a["ref"]["did"] == pos_p["did"] and b.get("k") == "IntegerLiteral":
+                    return int(b["v"])
+                if b.get("k") == "DeclRefExpr" and b["ref"]["did"] == pos_p["did"] and a.get("k") == "IntegerLiteral":
+                    return int(a["v"])
+            if idx.get("k") == "DeclRefExpr" and idx["ref"]["did"] == pos_p["did"]:
+                return 0
+        if e.get("k") == "ArraySubscriptExpr" and len(e.get("c", [])) == 2:
+            b, i_ = strip(e["c"][0]), strip(e["c"][1])
+            if b.get("k") == "DeclRefExpr" and b["ref"]["did"] in ptr_base and i_.get("k") == "IntegerLiteral":
+                return int(i_["v"])
+        return None
+
+    def coord_of(e):
+        e = strip(e)
+        if e.get("k") == "CXXMemberCallExpr" and e.get("callee") in ("vec3::dx", "vec3::dy", "vec3::dz"):
+            o = strip(call_obj(e))
+            if o.get("k") == "DeclRefExpr" and o["ref"]["did"] == vdid:
+                return e["callee"][-1]
+        return None
+
+    results = {}
+    for regions in itertools.product((-1, 0, 1), repeat=3):
+        reg = dict(zip("xyz", regions))
+
+        def atom(e, it):
+            if e.get("k") == "BinaryOperator" and e.get("op") in ("<", ">", "<=", ">="):
+                for l, r, op in ((e["c"][0], e["c"][1], e["op"]), (e["c"][1], e["c"][0], {"<": ">", ">": "<", "<=": ">=", ">=": "<="}[e["op"]])):
+                    ax, k = coord_of(l), slot_of(r)
+                    if ax is not None and k is not None:
+                        if k > 5 or "xyz"[k % 3] != ax:
+                            bad_slot.append((e, ax, k))
+                            return None
+                        # value of  p_ax  op  (min if k < 3 else max), with p strictly below / inside / above the slot pair
+                        if k < 3:
+                            return (reg[ax] == -1) if op in ("<", "<=") else (reg[ax] >= 0)
+                        return (reg[ax] == 1) if op in (">", ">=") else (reg[ax] <= 0)
+            return NotImplemented
+        it = finite.Interp(atom)
+        try:
+            results[regions] = it.call(chk)
+        except finite.Unknown as u:
+            raise AnalysisBroken("aabb_intersection_check: %s cannot be interpreted" % u)
+    if bad_slot:
+        e, ax, k = bad_slot[0]
+        rep.violation("C06.aabb-layout", prog, chk, e, "aabb check compares %s with slot %d" % (ax, k),
+                      "aabb_intersection_check tests the node's %s coordinate against slot %d of the box; the layout is (min_x,min_y,min_z,max_x,max_y,max_z)" % (ax, k))
+        return
+    wrong = [(r_, v) for r_, v in results.items() if v is None or bool(v) != (r_ == (0, 0, 0))]
+    if not wrong:
+        for a in "xyz":
+            rep.ok("C06.aabb-layout", prog, chk, None, "box test (interpreted over the 27 below/inside/above combinations): true exactly when every coordinate lies between its min and max slot; axis %s min" % a)
+            rep.ok("C06.aabb-layout", prog, chk, None, "box test (interpreted over the 27 below/inside/above combinations): true exactly when every coordinate lies between its min and max slot; axis %s max" % a)
+    else:
+        r_, v = wrong[0]
+        rep.violation("C06.aabb-layout", prog, chk, None, "box test accepts / rejects the wrong region",
+                      "aabb_intersection_check returns %s for a node whose coordinates are (%s) relative to the box (-1 below min, 0 inside, +1 above max); it must return true exactly for (0,0,0)" % (v, ", ".join(map(str, r_))))
 
 
 def face_index(rep, prog, cm, rule="C06.face-index"):
@@ -359,7 +442,11 @@ def pipeline(rep, prog, cm):
         raise AnalysisBroken("%s does not call the narrow phase" % lk["qn"])
     n = calls[0]
     filters = []
+    # the conditions of the enclosing loops bound the iteration over nodes / candidate faces; they are not filters on a pair
+    loop_conds = {id(p_.get("cond")) for p_, _s, _c in li.ancestors(n) if p_.get("k") in ("ForStmt", "WhileStmt") and isinstance(p_.get("cond"), dict)}
     for cond, pol in li.guards(n):
+        if id(cond) in loop_conds:
+            continue
         for x in walk(cond):
             if is_call(x) and x.get("callee"):
                 filters.append(x["callee"])
